@@ -21,7 +21,7 @@ from vmon.props import c12
 
 LEVEL = "exploration"
 SHARDS = {"quick": 16, "thorough": 16}
-MUST = ["streams", "options.combos_seen", "solo.packets", "solo.unrecognized", "solo.flagged", "solo.framed_object_parses", "streams.inspected_after_exhaustion", "interleave.calibrator_history", "interleave.error_suspension", "failed_packet.then_good_packets", "solo.recomputed", "options.root_override_interleaved", "interleavings.exhaustive",
+MUST = ["streams", "options.combos_seen", "solo.packets", "solo.unrecognized", "solo.flagged", "solo.framed_object_parses", "streams.inspected_after_exhaustion", "interleave.calibrator_history", "interleave.error_suspension", "failed_packet.then_good_packets", "solo.recomputed", "options.root_override_interleaved", "options.headers_only_with_combine", "interleavings.exhaustive",
         "interleavings.random", "interleavings.threads", "interleave.segmented", "immutability.snapshots", "setattr.monitored_classes"]
 RULE = ("(a) streams of 5-40 generated packets mixing several APIDs x {recognised, unrecognised (dead end / ambiguous), "
         "longer than consumed, shorter than consumed} under all 8 combinations of parse_bad_pkts, "
@@ -315,6 +315,16 @@ def check_streams(ctx, d):
             ctx.violation(f"stream-vs-solo/{kind}/{combo}", f"stream yields differ from the per-packet solo results at item {i} ({len(got)} vs {len(exp)} items); "
                           f"packet classes: {classes[:20]}", {"doc": d, "options": combo, "classes": classes, "index": i,
                                                              "got": got[i] if i < len(got) else None, "expected": exp[i] if i < len(exp) else None})
+        if headers_only and len(raws) >= 3:
+            # headers-only hands the framer's packets through: the same bytes with the sequence flags rewritten to FIRST, CONTINUATION,
+            # LAST, ... and re-combination asked for as well still come out one raw packet per packet, in order
+            seg = [r_[:2] + bytes([(r_[2] & 0x3F) | ((1, 0, 2)[k % 3] << 6)]) + r_[3:] for k, r_ in enumerate(raws)]
+            got3 = run_stream(defn, b"".join(seg), parse_bad_pkts=parse_bad, yield_unrecognized_packet_errors=yield_unrec, ccsds_headers_only=True,
+                              combine_segmented_packets=True)
+            ctx.count("options.headers_only_with_combine")
+            if got3 != [("raw", r_) for r_ in seg]:
+                ctx.violation("stream-vs-solo/headers-only-with-combine", f"ccsds_headers_only=True with combine_segmented_packets=True on FIRST/CONTINUATION/LAST packets yields "
+                              f"{len(got3)} items, not the {len(seg)} raw packets in order", {"doc": d, "got": got3[:4]})
         if not headers_only and parse_bad and yield_unrec and len(doc.containers) > 1 and d % 2 == 0:
             # a per-generator option (root_container_name override) belongs to that generator: run one with another root under
             # the immutability monitors, half advanced while a default generator runs, then compare the default one with the solos
